@@ -614,7 +614,8 @@ static void runCase(Ctx& c, long idx, Rng& r) {
     // ---------------- C: implicit, Geodesic object (library-fixed accuracy 1e-6, tolerance 1e-10)
     Geodesic gC; bool okC = false; std::vector<Knot> knC; PathBound BC; RefState endC; double endCErr = 0;
     SeqInfo qC; qC.tag = "implicit-geodesic:" + sname; qC.implicit = true; qC.acc = 1e-6; qC.ctol = 1e-10;
-    const bool runC = (variant != 2) || (idx / 48) % 2 == 0;
+    const bool noOld = c.args.getInt("noold", 0) != 0;          // profiling aid only
+    const bool runC = !noOld && ((variant != 2) || (idx / 48) % 2 == 0);
     if (runC) {
         c.setPhase("shootGeodesicInDirectionUntilLengthReached " + sname);
         try { geom.shootGeodesicInDirectionUntilLengthReached(p0, UnitVec3(t0), L, GeodesicOptions(), gC); okC = true; }
@@ -784,7 +785,11 @@ static void runCase(Ctx& c, long idx, Rng& r) {
                     bool sizesOk; std::vector<Knot> kn = fromGeodesic(g, sizesOk);
                     SeqInfo q; q.tag = "two-point-analytic:" + sname; q.hasJt = false;
                     PathBound B; RefState en; double enErr;
-                    if (c.require("geodesic-arrays-same-size:" + q.tag, sizesOk, W2("Geodesic arrays have different lengths", 0)) &&
+                    const double dphi = kind == K_Cylinder ? std::fabs(P[0] * Q[1] - P[1] * Q[0]) / (S.r * S.r) : 1.0;
+                    if (kind == K_Cylinder && dphi < 1e-7 && !std::isfinite(g.getLength())) {
+                        // P and Q on one generator of the cylinder: the helix parametrisation divides by the zero angle
+                        c.viol("nan-for-axial-geodesic:two-point-analytic:cylinder", [&]() { Json j = d2; j.set("what", "calcGeodesicAnalytical returns NaN length/frames for two points on the same generator (valid input, no failure reported)").set("dphi", dphi); return j; }());
+                    } else if (c.require("geodesic-arrays-same-size:" + q.tag, sizesOk, W2("Geodesic arrays have different lengths", 0)) &&
                         checkSequence(c, S, kn, g.getLength(), q, &B, &en, &enErr)) {
                         checkGeodesicObject(c, S, g, q.tag, true);
                         double tl = 256 * EPS * (S.size + sQ) + refErr;
